@@ -5,6 +5,7 @@ import GtirbVerif.Spec.ListingCheck
 import GtirbVerif.Model.IR.Batch
 import GtirbVerif.Spec.FlatCfg
 import GtirbVerif.Spec.FuncCheck
+import GtirbVerif.Spec.WellFormed
 
 /-! JSON <-> abstract IR (the canonical dump produced by harness/irdump.py). -/
 namespace Driver.IRJson
@@ -303,6 +304,13 @@ def handleListing (op : String) (j : Json) : Option (Except String Json) :=
     let oldProxies ← getNatList j "old_proxies"
     let pd ← getBool j "proxy_deletion"
     .ok (Json.mkObj [("C03", issuesJ (GtirbVerif.FlatCfg.checkCfg ir nop (fun p => pd && !oldProxies.contains p) insns))])
+  | "wf_check" => some do
+    let before ← irOf (← j.getObjVal? "before")
+    let after ← irOf (← j.getObjVal? "after")
+    let emptied ← getNatList j "emptied"
+    let needAddr ← getBool j "need_addr"
+    let closureOnly ← getBool j "closure_only"
+    .ok (Json.mkObj [("C05", issuesJ (checkWellFormed before after (fun b => emptied.contains b) needAddr closureOnly))])
   | _ => none
 
 end Driver.IRJson
